@@ -24,7 +24,7 @@ CHECK = dict(
                                        'msg_head_response': 100, 'zero_write_cases': 100, 'probe_items': 8})),
         assumptions=['valid messages are kept inside the buffer budget of the library (header <= capacity - 8 KiB - index), so that acceptance cannot depend on how much body arrives with the header',
                      'the mock stream has the fully-read semantics of the real socket streams for read()/readv() and the some-bytes semantics for recv()',
-                     'except in the dedicated probe items the last byte of the caller buffer is a NUL (Request::parse_request_line runs strlen over the buffer: known finding)'],
+                     'except in the dedicated probe items (which use a buffer without any NUL, followed by a guard page) the last byte of the caller buffer is a NUL; the strlen() over the buffer that made this necessary was repaired in 5d5322e and the probes would report it again'],
         technique='runtime monitoring by differential execution under ASan+UBSan (and a plain build with guard-page buffers): grammar-based generator of valid '
                   'HTTP/1.1 requests/responses with a model, structural/1-byte/random fragmentation plans on a mock ISocketStream, garbage-fill differential of the '
                   'caller buffer, step bound on calls into the stream, writer->reader round trips through the library body writers, mutation/truncation/random '
